@@ -1557,6 +1557,59 @@ func layGenAlias(c *Ctx) {
 	c.Stat("alias.outcome", strings.SplitN(out, "=", 2)[0])
 }
 
+
+// layGenLigText: Go Regular with a synthetic cmap that maps the letters to their real glyphs and every
+// subset of U+FB00..FB04 (sometimes FB05/FB06 too) to existing glyph ids; texts over {f, i, l, other}
+// of length 2-6 including "ffl", "fffl", "ffli", "fflffi": the real Layout must form the LONGEST
+// ligature the font contains at every position (D layout.ligd), and agree with the model (V layout.text).
+func layGenLigText(c *Ctx, i int) {
+	r := c.Rng
+	cm := map[uint16]glyph.ID{'f': 73, 'i': 76, 'l': 79, 'x': 91, 'a': 68, ' ': 3}
+	mask := i % 32
+	if i >= 32 {
+		mask = Pick(r, []int{31, 31, 17, 21, 25, 29, 19}) // ff and ffl present in most
+	}
+	for k := 0; k < 5; k++ {
+		if mask>>k&1 == 1 {
+			cm[uint16(0xFB00+k)] = glyph.ID(400 + 10*k)
+		}
+	}
+	if r.Chance(1, 3) {
+		cm[0xFB05], cm[0xFB06] = 460, 470
+	}
+	if r.Chance(1, 10) {
+		delete(cm, Pick(r, []uint16{'i', 'l'}))
+	}
+	var text []rune
+	if r.Chance(1, 2) {
+		text = []rune(Pick(r, []string{"ffl", "fffl", "ffli", "fflffi", "ffi", "ff", "fl", "fi", "xffl", "fflx", "ffffl", "fifl"}))
+	} else {
+		text = make([]rune, r.Range(2, 6))
+		for j := range text {
+			text[j] = Pick(r, []rune("fffiilxa"))
+		}
+	}
+	font0, err := sfnt.Read(bytes.NewReader(layFontBytes("regular", cm, nil)))
+	if err != nil {
+		panic(err)
+	}
+	mapArg, wArg, fixed, _, ng := layFacts(font0, text)
+	fx := map[bool]string{true: "1", false: "0"}[fixed]
+	gsw := Pick(r, []map[string]bool{nil, nil, {"liga": true}})
+	ti := make([]int, len(text))
+	for j, x := range text {
+		ti[j] = int(x)
+	}
+	args := fmt.Sprintf("var=- base=regular cm=%s kern=- gsw=%s psw=nil lang=en text=%s fixed=%s ng=%d map=%s w=%s",
+		layShowCm(cm), layShowSw(gsw), layJoin(ti, ","), fx, ng, mapArg, wArg)
+	out := c.Case(Verdict, "layout.text", args, true)
+	c.Stat("ligtext.ligature_set", fmt.Sprintf("%05b", mask))
+	c.Stat("ligtext.text", map[bool]string{true: "contains ffl", false: "other"}[strings.Contains(string(text), "ffl")])
+	if strings.HasPrefix(out, "ok:") && !fixed {
+		c.Case(Direct, "layout.ligd", fmt.Sprintf("map=%s text=%s got=%s", mapArg, layJoin(ti, ","), out[3:]), true)
+	}
+}
+
 func areaLayout(c *Ctx) {
 	nFind := c.N / 2
 	nKern := c.N / 5
@@ -1581,6 +1634,7 @@ func areaLayout(c *Ctx) {
 		layGenPipe(c, i)
 	}
 	for i := 0; i < c.N/12; i++ {
+		layGenLigText(c, i)
 		layGenKernAdv(c)
 		layGenAlias(c)
 	}
